@@ -137,7 +137,7 @@ def _scenarios(scratch, quick, r):
     # it must keep waiting or be refused, never be let in
     for k in range(1 if quick else 4):
         sc = Scenario(scratch, "s-signal%d" % k, existing=True)
-        sc.start("P1", hold=350 + 100 * k)
+        sc.start("P1", hold=900 + 100 * k)
         inside = sc.wait_logged("P1", "worked")
         sc.start("P2", hold=2, signals=True)
         # (the handler is installed before `open-called` is logged: a signal sent earlier would end the process)
@@ -176,6 +176,16 @@ def _scenarios(scratch, quick, r):
         sc.start("P2", park=("open", 1, "P1"), hold=r.randrange(0, 5))
         time.sleep(0.15)
         sc.release("P1")
+        # (a worker that reached its parking point only after that release — a loaded machine — is released by one
+        # of the following attempts: a writer can open the fifo only while a reader is blocked on it)
+        t_rel = time.time()
+        while time.time() - t_rel < 8 and any(p_.poll() is None for p_ in sc.procs.values()):
+            try:
+                fd_ = os.open(sc.fifos["P1"], os.O_WRONLY | os.O_NONBLOCK)
+                os.close(fd_)
+            except OSError:
+                pass
+            time.sleep(0.02)
         hung = sc.wait_all()
         yield (sc.name, "create", ["scenario %s create parked=%s@open1x2 hung=%s" % (sc.name, parked, ",".join(hung) or "-")] + sc.observations(), [w for w in sc.started if w != 'P0'])
     # R: several processes race to create the same missing file (no parking: the window between "file exists, still
